@@ -20,7 +20,7 @@ CONSTANT Variant
 Universe == <<"id", "N", "x_com", "r100_com", "r50_com", "L2_N", "sigmav3d_com", "sigmavMin_com", "sigmavMaj_com", "sigmavMid_com",
               "sigmavMid_L2com", "sigmar_com", "N_merge", "v_L2com_mainprog", "N_mainprog",
               "sigmav_eigenvecsMin_com", "sigmav_eigenvecsMaj_com",      \* two of the three outputs of one multi-output loader (one packed raw column)
-              "npoutA", "npstartB">>                                     \* one member of each subsample index pair (the other is added automatically)
+              "npoutA", "npoutB">>                                       \* one member of each subsample index pair (the other is added automatically when that subsample is loaded)
 Type(c) == CASE c \in {"id", "npstartA", "npstartB"} -> "u64"
              [] c \in {"N", "N_total", "N_merge", "npoutA", "npoutB", "npoutA_merge", "npoutB_merge"} -> "u32"
              [] c \in {"npstartA_merge", "npstartB_merge"} -> "i64"
